@@ -16,8 +16,13 @@ def reg(pid, **kw):
     PROPS[pid] = kw
 
 # ------------------------------------------------------------------------------------------- C19
+KMX = ('yuvxyb-math/src/matrix.rs', 'k_matrix.rs', 'verif_kani_matrix')
 def plan_c19(tier, seed):
-    return {'verus': [('u_matrix', {}), ('u_round', {})]}
+    FX = 'FIXED integer-valued operands in generic position (det(A) = 4) on which f32/f64 arithmetic is exact; expected values computed in i32 from the textbook definitions'
+    hs = [H('matrix_ops_fixed_exact_f32', fixed=True, bounded=FX, domain='one fixed operand set', desc='real compiled f32 instantiation: mul_mat, mul_vec, mul_arr, transpose, cross, dot, scalar_div, component_mul, invert = adj/det, A*inv(A) = inv(A)*A = I, all exact'),
+          H('matrix_ops_fixed_exact_f64', fixed=True, bounded=FX, domain='one fixed operand set', desc='same for the f64 instantiation (f32 and f64 behave alike)'),
+          H('identity_is_neutral_fixed', fixed=True, bounded=FX, domain='one fixed matrix', desc='identity() is a two-sided unit, f32 and f64')]
+    return {'verus': [('u_matrix', {}), ('u_round', {})], 'kani': [{'crate_dir': 'yuvxyb-math', 'inject': [KMX], 'harnesses': hs}]}
 reg('C19', plan=plan_c19, level='proof', min_obligations=60,
     title='3x3 matrix/vector algebra agrees with its mathematical definition',
     technique='Verus contracts on the real generic matrix.rs for every exact field T + generated polynomial lemmas (A*inv(A)=I); the products (mul_arr, mul_vec, mul_mat, dot) additionally for every T obeying the standard model of binary32/binary64 rounding (a-priori error bound)',
@@ -239,12 +244,18 @@ reg('C11', plan=plan_c11, level='proof', min_obligations=40,
     not_decided=['pointwise-ness of the from_raw_parts_mut flatten in transfer.rs (bounded Kani harness only)'],
     design_ref='DESIGN.md §5 C11')
 
+KC3 = ('src/lib.rs', 'k_ctor.rs', 'verif_kani_ctor')
 def plan_c12(tier, seed):
     hs = [H('range_check_is_any_visible_sample_2x2_444_10bit', bounded='real v_frame planes, 2x2 4:4:4, all 12 samples symbolic', domain='12 symbolic u16 samples',
             desc='cross-check of the cut iterator expression (R-anycut): InvalidData <=> some visible sample > 2^n-1'),
           H('range_check_is_any_visible_sample_2x2_420_12bit', bounded='real v_frame planes, 2x2 luma + 1x1 chroma 4:2:0, all 6 samples symbolic', domain='6 symbolic u16 samples',
             desc='same, subsampled geometry')]
-    return {'verus': [('u_planes', {'stage': 'ctor'}), ('u_ctor', {})], 'kani': [{'crate_dir': '', 'inject': [KY], 'harnesses': hs}]}
+    CB = 'data length fixed (0 or 6 pixels; a Vec of symbolic length is intractable for CBMC); width and height: every usize'
+    for ty in ('lrgb', 'xyb', 'hsl'):
+        for n in (6, 0):
+            hs.append(H(f'ctor_{ty}_len{n}', bounded=CB, domain='(width, height): usize^2', desc=f'real {ty} constructor: Ok <=> width*height == {n} as a mathematical (u128) product, else ResolutionMismatch; accepted image exposes data and dims verbatim'))
+    hs.append(H('ctor_rgb_len6', bounded=CB, domain='(width, height): usize^2, every transfer and primaries value', desc='real Rgb::new: same, plus Unspecified transfer/primaries resolved to sRGB/BT.709 and others kept'))
+    return {'verus': [('u_planes', {'stage': 'ctor'}), ('u_ctor', {})], 'kani': [{'crate_dir': '', 'inject': [KY, KC3], 'harnesses': hs}]}
 reg('C12', plan=plan_c12, level='proof', min_obligations=40,
     title='Constructors accept exactly the well-formed images and keep them verbatim',
     technique='Verus postconditions on the real constructors: Ok <=> well-formedness predicate written from the statement, error variant by priority, verbatim storage',
@@ -306,26 +317,41 @@ DISPATCH_ASSUME = PLANES_ASSUME + ['get_yuv_to_rgb_matrix/get_rgb_to_yuv_matrix 
     'values of gamut_* named by uninterpreted functions of `primaries` (purity); XYB/HSL kernels and the 18 image_* curve maps uninterpreted deterministic',
     'R-tryfrom: conversion calls inside TryFrom/From bodies resolved to the verified functions by the static type of their argument',
     'type invariants yuv_wf/rgb_wf/lrgb_wf/xyb_wf stated as preconditions of the conversions; enc_cfg_ok (shifts < 64, depth 8..16, allocation fits) is the supported-configuration precondition']
+KS = ('src/lib.rs', 'k_support.rs', 'verif_kani_support')
+KSM = ('src/yuv_rgb/color.rs', 'k_support_matrix.rs', 'verif_kani_support_matrix')
+LOGSTUB = 'Kani: log::max_level() stubbed to Off (the log crate reads an atomic, unsupported by Kani): the `log::warn!` calls are not executed'
 def plan_c14(tier, seed):
-    return {'verus': [('u_dispatch', {}), ('u_color', {})]}
+    hs = [H('transfer_support_symmetric_every_value', domain='every TransferCharacteristic value (symbolic u8 through FromPrimitive), empty image',
+            desc='to_linear / to_gamma succeed or fail together with the same error, which names the transfer (Unspecified <=> UnspecifiedTransferCharacteristic); no panic'),
+          H('yuv_rgb_support_symmetric_every_matrix_and_primaries', domain='every (MatrixCoefficients, ColorPrimaries) pair',
+            desc='get_rgb_to_yuv_matrix / get_yuv_to_rgb_matrix succeed or fail together with the same error naming matrix or primaries; the 7 standard matrices never fail; no panic')]
+    if tier == 'thorough':
+        hs.append(H('primaries_support_symmetric_every_value', bounded='optional (complete query over every ColorPrimaries value, about 15 min; per-harness timeout)', timeout=2400,
+                    domain='every ColorPrimaries value, empty image', desc='transform_primaries to and from BT.709 succeed or fail together with the same error naming the primaries; no panic'))
+    return {'verus': [('u_dispatch', {}), ('u_color', {})], 'kani': [{'crate_dir': '', 'inject': [KS, KSM], 'harnesses': hs}]}
 reg('C14', plan=plan_c14, level='proof', min_obligations=150,
     title='Support and error contract over every metadata combination',
     technique='Verus postconditions over the real av-data enums on every match table and every TryFrom/From body: Ok <=> conjunction of stage predicates, named error variant by stage priority; symmetry lemmas',
     text='Unbounded proof by case analysis over ALL enum values (not only the 3276 fully specified triples): get_rgb_to_yuv_matrix/get_yuv_to_rgb_matrix/get_yuv_constants/get_primaries_xy (U-color, exact), to_linear/to_gamma, transform_primaries, '
          'gamut_* and all 18 conversion impls return Ok exactly when the stage predicates written from the statement hold, and otherwise the ConversionError variant naming the first failing field; no unwrap/expect/index can panic on these paths; '
-         'decode and encode use the same predicate (symmetry), single-stage pairs fail with the same variant, the 7 standard matrices / 14 curves / 11 primaries always succeed, and with a standard matrix the YUV<->RGB result term mentions only the matrix (independence).',
-    note='; '.join(DISPATCH_ASSUME) + '. ' + TOOLS,
-    assumptions=DISPATCH_ASSUME, design_ref='DESIGN.md §5 C14')
+         'decode and encode use the same predicate (symmetry), single-stage pairs fail with the same variant, the 7 standard matrices / 14 curves / 11 primaries always succeed, and with a standard matrix the YUV<->RGB result term mentions only the matrix (independence). '
+         'Independent second opinion on the real compiled code (Kani, complete over every enum value built from a symbolic u8, anchor-free): the two matrix getters and to_linear/to_gamma (thorough: transform_primaries to/from BT.709) '
+         'succeed or fail together with the same field-naming error and never panic.',
+    note='; '.join(DISPATCH_ASSUME) + '; ' + LOGSTUB + '. ' + TOOLS,
+    assumptions=DISPATCH_ASSUME + [LOGSTUB], design_ref='DESIGN.md §5 C14')
 def plan_c15(tier, seed):
-    return {'verus': [('u_dispatch', {})]}
+    hs = [H('unspecified_resolution_every_config_and_size', domain='every YuvConfig (all enum values, symbolic u8 through FromPrimitive) and every (width, height): usize^2',
+            desc='the real fix_unspecified_data == the mpv heuristic restated from the property text; never Unspecified; other fields untouched')]
+    return {'verus': [('u_dispatch', {})], 'kani': [{'crate_dir': '', 'inject': [KS], 'harnesses': hs}]}
 reg('C15', plan=plan_c15, level='proof', min_obligations=60,
     title='Unspecified metadata resolved deterministically; labels match content',
     technique='Verus: the mpv heuristic as postcondition of guess_*/fix_unspecified_data for all usize sizes; label = content as a postcondition over uninterpreted stage functions applied to the STORED metadata',
     text='Unbounded proof: guess_matrix_coefficients, guess_color_primaries and fix_unspecified_data equal the documented heuristic transcribed from the statement for every width/height, never return Unspecified; Yuv::new stores exactly the resolved config; '
          'Rgb::new and Rgb::try_from((LinearRgb,t,p)) resolve to sRGB/BT.709 and label the output with the transfer/primaries actually applied; Yuv::try_from((LinearRgb,cfg)) applies the gamma curve and primaries conversion of the config it stores '
-         '(this clause failed on the pinned tree: finding F5, fixed). The numeric half of the clause (decoding reproduces the input within the C09 budget) is not decided (see C09).',
-    note='; '.join(DISPATCH_ASSUME) + '. ' + TOOLS,
-    assumptions=DISPATCH_ASSUME, not_decided=['numeric round trip through the stored config within the C09 budget'], design_ref='DESIGN.md §5 C15')
+         '(this clause failed on the pinned tree: finding F5, fixed). The numeric half of the clause (decoding reproduces the input within the C09 budget) is not decided (see C09). '
+         'Independent second opinion (Kani, complete, anchor-free): the real fix_unspecified_data equals the heuristic restated from the property text for every config (all enum values) and every usize width/height.',
+    note='; '.join(DISPATCH_ASSUME) + '; ' + LOGSTUB + '. ' + TOOLS,
+    assumptions=DISPATCH_ASSUME + [LOGSTUB], not_decided=['numeric round trip through the stored config within the C09 budget'], design_ref='DESIGN.md §5 C15')
 def plan_c03(tier, seed):
     hs = [H(f'anchor_{c}', domain='input-free', desc=f'{c}(0) within 1e-6 of 0 and (1) within budget of 1') for c in
           ['rec_1886_eotf', 'rec_1886_inverse_eotf', 'rec_470m_oetf', 'rec_470m_inverse_oetf', 'rec_470bg_oetf', 'rec_470bg_inverse_oetf',
